@@ -256,3 +256,32 @@ func cmdGen(args []string) {
 	fn(e, &rng{s: seed*0x9e3779b97f4a7c15 + 1}, args[1] == "thorough")
 	w.Flush()
 }
+
+// nearClassRuns: long runs of one byte class (digits, spaces) with, at every position of the first
+// 24 bytes, one byte that is NOT in the class but close to it in value (the neighbours of the class
+// range, the same low nibble in another row, the high-bit twin).  An implementation that classifies
+// 8 or 16 bytes at a time with nibble or mask tricks is exercised at every lane.
+func nearClassRuns(class string, f func([]byte)) {
+	var base []byte
+	var near []byte
+	switch class {
+	case "digits":
+		base = []byte("123456789012345678901234")
+		near = []byte{0x2f, 0x3a, 0x3b, 0x3c, 0x3d, 0x3e, 0x3f, 0x20, 0x10, 0x19, 0x40, 0x70, 0x79, 0xb0, 0xb9, 0x00, 0xff}
+	case "spaces":
+		base = []byte("                        ")
+		near = []byte{0x00, 0x08, 0x0b, 0x0c, 0x0e, 0x1f, 0x21, 0x28, 0x29, 0x2a, 0x2d, 0xa0, 0x89, 0x8a, 0x8d, 0x60}
+	}
+	for ln := 1; ln <= len(base); ln++ {
+		f(append([]byte{}, base[:ln]...))
+	}
+	for _, ln := range []int{7, 8, 9, 15, 16, 17, 23, 24} {
+		for pos := 0; pos < ln; pos++ {
+			for _, b := range near {
+				v := append([]byte{}, base[:ln]...)
+				v[pos] = b
+				f(v)
+			}
+		}
+	}
+}
